@@ -52,6 +52,15 @@ pub enum Ev {
     Close {
         file: String,
     },
+    /// didSave (the server has no handler for it: it changes nothing)
+    Save {
+        file: String,
+    },
+    /// Delivery timing: the client is ahead of the server. All these notifications (open/change/close/save) are
+    /// already waiting on the connection when the server gets round to the first of them.
+    Burst {
+        events: Vec<Ev>,
+    },
     /// disk state change, only generated immediately before a buffer event
     Disk {
         file: String,
@@ -110,6 +119,10 @@ impl Ev {
             Ev::Change { file, text } => json!({"op": "change", "file": file, "text": text}),
             Ev::ChangeN { file, texts } => json!({"op": "change_n", "file": file, "texts": texts}),
             Ev::Close { file } => json!({"op": "close", "file": file}),
+            Ev::Save { file } => json!({"op": "save", "file": file}),
+            Ev::Burst { events } => {
+                json!({"op": "burst_already_waiting", "events": events.iter().map(|e| e.to_json()).collect::<Vec<_>>()})
+            }
             Ev::Disk { file, state } => {
                 json!({"op": "disk", "file": file, "state": state.to_json()})
             }
@@ -146,6 +159,15 @@ impl Ev {
                     .collect::<Option<Vec<_>>>()?,
             }),
             "close" => Some(Ev::Close { file: s("file")? }),
+            "save" => Some(Ev::Save { file: s("file")? }),
+            "burst_already_waiting" => Some(Ev::Burst {
+                events: v
+                    .get("events")?
+                    .as_array()?
+                    .iter()
+                    .map(Ev::from_json)
+                    .collect::<Option<Vec<_>>>()?,
+            }),
             "disk" => Some(Ev::Disk {
                 file: s("file")?,
                 state: DiskState::from_json(v.get("state")?)?,
@@ -167,6 +189,11 @@ impl Ev {
             Ev::Change { .. } => "change".into(),
             Ev::ChangeN { texts, .. } => format!("change_with_{}_content_changes", texts.len()),
             Ev::Close { .. } => "close".into(),
+            Ev::Save { .. } => "save".into(),
+            Ev::Burst { events } => format!(
+                "burst[{}]",
+                events.iter().map(|e| e.kind_name()).collect::<Vec<_>>().join(",")
+            ),
             Ev::Disk { state, .. } => state.name().into(),
             Ev::Req { kind, .. } => kind.clone(),
         }
@@ -368,6 +395,32 @@ impl Node {
             method: method.into(),
             params,
         }))
+    }
+
+    /// The client is ahead: every message but the first is already waiting on the connection when the first one is
+    /// handled; then the main loop's `recv` / `handle_message` cycle runs until the connection is empty.
+    fn notify_burst(&mut self, msgs: Vec<(String, Value)>) -> Result<Vec<Message>, Crash> {
+        let mut it = msgs.into_iter();
+        let first = match it.next() {
+            Some(f) => f,
+            None => return Ok(vec![]),
+        };
+        for (method, params) in it {
+            let _ = self
+                .client
+                .sender
+                .send(Message::Notification(Notification { method, params }));
+        }
+        let mut out = self.notify(&first.0, first.1)?;
+        loop {
+            let conn = self.server.lock_context().connection_verif();
+            let next = conn.and_then(|c| c.receiver.try_recv().ok());
+            match next {
+                Some(m) => out.extend(self.deliver(m)?),
+                None => break,
+            }
+        }
+        Ok(out)
     }
 
     /// Send a request; returns the response's `result` (or an error object).
@@ -868,6 +921,48 @@ fn nonterm_found(verdict: &str, who: &str, method: &str, at: usize) -> Found {
     }
 }
 
+/// World bookkeeping for one buffer notification and the message that carries it.
+fn note_message(ev: &Ev, world: &mut World, versions: &mut Versions) -> Option<(String, Value)> {
+    match ev {
+        Ev::Open { file, text } => {
+            if !world.open_order.contains(file) {
+                world.open_order.push(file.clone());
+            }
+            world.buffers.insert(file.clone(), text.clone());
+            let v = versions.open(file);
+            Some(("textDocument/didOpen".into(), did_open(file, text, v)))
+        }
+        Ev::Change { file, text } => {
+            if !world.open_order.contains(file) {
+                world.open_order.push(file.clone());
+            }
+            world.buffers.insert(file.clone(), text.clone());
+            let v = versions.change(file);
+            Some(("textDocument/didChange".into(), did_change(file, text, v)))
+        }
+        Ev::ChangeN { file, texts } => {
+            if let Some(last) = texts.last() {
+                if !world.open_order.contains(file) {
+                    world.open_order.push(file.clone());
+                }
+                world.buffers.insert(file.clone(), last.clone());
+            }
+            let v = versions.change(file);
+            Some(("textDocument/didChange".into(), did_change_n(file, texts, v)))
+        }
+        Ev::Close { file } => {
+            world.open_order.retain(|f| f != file);
+            world.buffers.remove(file);
+            Some(("textDocument/didClose".into(), did_close(file)))
+        }
+        Ev::Save { file } => Some((
+            "textDocument/didSave".into(),
+            json!({"textDocument": {"uri": uri(file)}}),
+        )),
+        _ => None,
+    }
+}
+
 fn execute_inner(h: &History, seed_checks: usize, stats: &mut RunStats) -> Option<Found> {
     let mut world = World {
         open_order: vec![],
@@ -949,6 +1044,22 @@ fn execute_inner(h: &History, seed_checks: usize, stats: &mut RunStats) -> Optio
                 world.open_order.retain(|f| f != file);
                 world.buffers.remove(file);
                 long.notify(&method, did_close(file)).map(|_| None)
+            }
+            Ev::Save { .. } => {
+                method = "textDocument/didSave".into();
+                stats.buffer_events += 1;
+                let (m, p) = note_message(ev, &mut world, &mut versions).unwrap();
+                long.notify(&m, p).map(|_| None)
+            }
+            Ev::Burst { events } => {
+                method = "burst/didChange".into();
+                stats.buffer_events += events.len() as u64;
+                *stats.faults.entry("notifications_already_waiting".to_string()).or_insert(0) += 1;
+                let msgs: Vec<(String, Value)> = events
+                    .iter()
+                    .filter_map(|e| note_message(e, &mut world, &mut versions))
+                    .collect();
+                long.notify_burst(msgs).map(|_| None)
             }
             Ev::Req {
                 kind,
@@ -1255,7 +1366,13 @@ fn final_world(h: &History) -> (World, usize) {
                 world.open_order.retain(|f| f != file);
                 world.buffers.remove(file);
             }
-            Ev::Disk { .. } | Ev::Req { .. } => {}
+            Ev::Burst { events } => {
+                let mut versions = Versions::new(0);
+                for e in events {
+                    let _ = note_message(e, &mut world, &mut versions);
+                }
+            }
+            Ev::Disk { .. } | Ev::Req { .. } | Ev::Save { .. } => {}
         }
         if !matches!(ev, Ev::Req { .. }) {
             tail_from = i + 1;
@@ -1632,6 +1749,46 @@ let writer = matches!(kind.as_str(), "textDocument/rename" | "textDocument/forma
             }
         }
     }
+    // Delivery timing: in one history out of three the client is at times ahead of the server. A run of buffer
+    // notifications becomes one burst (all but the first already waiting when the first is handled); a save or a
+    // change notification without content changes may ride along, as editors send them (format on save, a
+    // plug-in that touches the document).
+    if rng.chance(1, 3) {
+        let mut out: Vec<Ev> = vec![];
+        let mut i = 0;
+        while i < events.len() {
+            let is_note = |e: &Ev| matches!(e, Ev::Open { .. } | Ev::Change { .. } | Ev::ChangeN { .. } | Ev::Close { .. });
+            let after_disk = matches!(out.last(), Some(Ev::Disk { .. }));
+            if is_note(&events[i]) && !after_disk && rng.chance(1, 3) {
+                let mut inner = vec![events[i].clone()];
+                let mut j = i + 1;
+                while j < events.len() && inner.len() < 4 && is_note(&events[j]) && rng.chance(2, 3) {
+                    inner.push(events[j].clone());
+                    j += 1;
+                }
+                // the file the last notification was about, if it is still open after it
+                let tail_file = match inner.last() {
+                    Some(Ev::Open { file, .. }) | Some(Ev::Change { file, .. }) | Some(Ev::ChangeN { file, .. }) => Some(file.clone()),
+                    _ => None,
+                };
+                if let Some(f) = tail_file {
+                    match rng.below(4) {
+                        0 => inner.push(Ev::Save { file: f }),
+                        1 => inner.push(Ev::ChangeN { file: f, texts: vec![] }),
+                        _ => {}
+                    }
+                }
+                if inner.len() > 1 {
+                    out.push(Ev::Burst { events: inner });
+                    i = j;
+                    continue;
+                }
+            }
+            out.push(events[i].clone());
+            i += 1;
+        }
+        events = out;
+    }
     History {
         entropy_seed: rng::derive(seed, "lspsim.entropy", k),
         disk,
@@ -1641,9 +1798,22 @@ let writer = matches!(kind.as_str(), "textDocument/rename" | "textDocument/forma
 }
 
 fn legal(events: &[Ev]) -> bool {
+    // (bursts count as the notifications they carry)
+    let mut flat: Vec<&Ev> = vec![];
+    for e in events {
+        match e {
+            Ev::Burst { events } => {
+                if events.is_empty() || events.iter().any(|e| matches!(e, Ev::Burst { .. } | Ev::Req { .. } | Ev::Disk { .. })) {
+                    return false;
+                }
+                flat.extend(events.iter());
+            }
+            e => flat.push(e),
+        }
+    }
     let mut open: BTreeSet<&str> = BTreeSet::new();
     let mut prev_disk = false;
-    for e in events {
+    for e in flat {
         match e {
             Ev::Open { file, .. } => {
                 if !open.insert(file) {
@@ -1660,13 +1830,18 @@ fn legal(events: &[Ev]) -> bool {
                     return false;
                 }
             }
+            Ev::Save { file } => {
+                if !open.contains(file.as_str()) {
+                    return false;
+                }
+            }
             Ev::Req { .. } => {
                 // a disk change must be followed by a buffer event before any request
                 if prev_disk {
                     return false;
                 }
             }
-            Ev::Disk { .. } => {}
+            Ev::Disk { .. } | Ev::Burst { .. } => {}
         }
         prev_disk = matches!(e, Ev::Disk { .. });
     }
@@ -1773,6 +1948,32 @@ fn minimise(cli: &Cli, h: &History, found: &Found, seed_checks: usize) -> (Histo
         };
         let evs = ddmin(best.events.clone(), &mut test);
         best.events = evs;
+    }
+    // bursts: deliver one at a time instead, or drop members
+    let mut idx = 0;
+    while idx < best.events.len() {
+        if let Ev::Burst { events: inner } = best.events[idx].clone() {
+            let mut c = best.clone();
+            c.events.splice(idx..idx + 1, inner.iter().cloned());
+            if legal(&c.events) && same(&c) {
+                best = c;
+                continue;
+            }
+            let kept = ddmin(inner, &mut |sub: &[Ev]| {
+                if sub.is_empty() {
+                    return false;
+                }
+                let mut c = best.clone();
+                c.events[idx] = Ev::Burst { events: sub.to_vec() };
+                legal(&c.events) && same(&c)
+            });
+            let mut c = best.clone();
+            c.events[idx] = Ev::Burst { events: kept };
+            if legal(&c.events) && same(&c) {
+                best = c;
+            }
+        }
+        idx += 1;
     }
     // drop disk entries
     for f in best.disk.keys().cloned().collect::<Vec<_>>() {
